@@ -39,13 +39,6 @@ PROPS["C17"] = dict(
     abstractions=COMMON_ABS,
 )
 
-PROPS["C19"] = dict(
-    claimed=False,
-    proved="",
-    not_covered="",
-    assumptions=["A-posix"],
-    abstractions=COMMON_ABS,
-)
 
 
 # ----------------------------------------------------------------------
